@@ -636,3 +636,111 @@ func TestC18ConcCrash(t *testing.T) {
 		_ = suspicious
 	})
 }
+
+// Keys at and just outside both ends of the valid range, mixed into multi-puts.  The documented contract is that a
+// key outside [LOGSIZE, sz) makes the call panic; whatever a build does with such a put - panic, return false,
+// or accept it - the put must be all-or-nothing: refused (panic or false) means that none of its pairs is
+// installed, accepted means that all of them are and stay readable.  After the put the journal is made to wrap
+// (more than 511 blocks of further puts), the store is reopened, and everything is read back.
+func TestC18EdgeKeys(t *testing.T) {
+	rapid.Check(t, func(t *rapid.T) {
+		sz := uint64(kvsDiskSize)
+		d := NewDisk(sz + 8) // the device is a little larger than the store
+		d.SetRecord(false)
+		k := kvs.MkKVS(d, sz)
+		defer func() { k.Delete() }()
+		model := map[uint64]uint32{}
+		var tag uint32
+		var log []string
+		fail := func(format string, a ...any) { failf(t, "C18", log, format, a...) }
+		for i := 0; i < rapid.IntRange(0, 3).Draw(t, "npre"); i++ {
+			p := genPut(t, sz, &tag, 8)
+			log = append(log, fmt.Sprintf("put %v=%v", p.Keys, p.Tags))
+			if !k.MultiPut(p.pairs()) {
+				fail("MultiPut returned false")
+			}
+			p.apply(model)
+		}
+		odd := pick(t, []uint64{common.LOGSIZE - 2, common.LOGSIZE - 1, sz, sz + 1}, "oddkey")
+		p := genPut(t, sz, &tag, 6)
+		pos := rapid.IntRange(0, len(p.Keys)).Draw(t, "position")
+		tag++
+		p.Keys = append(p.Keys[:pos], append([]uint64{odd}, p.Keys[pos:]...)...)
+		p.Tags = append(p.Tags[:pos], append([]uint32{tag}, p.Tags[pos:]...)...)
+		log = append(log, fmt.Sprintf("put %v=%v (key %d is outside the store's range [%d, %d))", p.Keys, p.Tags, odd, uint64(common.LOGSIZE), sz))
+		outcome, accepted := "", false
+		func() {
+			defer func() {
+				if r := recover(); r != nil {
+					outcome = "refused by panic"
+				}
+			}()
+			if k.MultiPut(p.pairs()) {
+				outcome, accepted = "accepted", true
+			} else {
+				outcome = "refused (false)"
+			}
+		}()
+		log[len(log)-1] += " -> " + outcome
+		oddModel := map[uint64]uint32{}
+		if accepted {
+			for i, key := range p.Keys {
+				if key == odd {
+					oddModel[key] = p.Tags[i]
+				} else {
+					model[key] = p.Tags[i]
+				}
+			}
+		}
+		verify := func(when string) {
+			got, err := kvsReadAll(k, sz)
+			if err != nil {
+				fail("%s: %v", when, err)
+			}
+			if !mapsEqual(got, model) {
+				fail("%s: the store holds %v, the reference %v (a put with a key outside the range was %s: it must be installed completely or not at all)", when, got, model, outcome)
+			}
+			for key, want := range oddModel {
+				var pr *kvs.KVPair
+				panicked := false
+				func() {
+					defer func() {
+						if r := recover(); r != nil {
+							panicked = true
+						}
+					}()
+					pr, _ = k.Get(key)
+				}()
+				if panicked {
+					fail("%s: the put of key %d was accepted, but Get(%d) refuses the key", when, key, key)
+				}
+				if tg, clean := valTag(pr.Val); !clean || tg != want {
+					fail("%s: the put of key %d = %d was accepted, but Get returns tag %d (clean=%v)", when, key, want, tg, clean)
+				}
+			}
+		}
+		verify("right after the put")
+		// make the journal wrap: more than 511 blocks of further puts
+		for i := 0; i < 32; i++ {
+			var w kvPut
+			for j := 0; j < 20; j++ {
+				tag++
+				w.Keys = append(w.Keys, common.LOGSIZE+uint64((i*7+j)%int(sz-common.LOGSIZE)))
+				w.Tags = append(w.Tags, tag)
+			}
+			if !k.MultiPut(w.pairs()) {
+				fail("MultiPut of 20 pairs returned false")
+			}
+			w.apply(model)
+		}
+		log = append(log, "32 puts of 20 pairs each (the journal wraps)")
+		verify("after 640 more blocks were put")
+		k.Delete()
+		k = kvs.MkKVS(d, sz)
+		log = append(log, "reopen")
+		verify("after a reopen")
+		St.Eval(1)
+		St.NT(Hash("edge", log))
+		St.Class("puts_with_a_key_outside_the_range_" + map[bool]string{true: "accepted", false: "refused"}[accepted])
+	})
+}
